@@ -5,7 +5,7 @@ from pathlib import Path
 VERIF = Path(__file__).resolve().parent.parent
 
 TB = ("Coq 8.16.1 kernel (vm_compute, no native_compute); translators harness/gen.py (tables from the live modules) and "
-      "harness/pysrc.py (Python source text -> Gallina for the byte-level and synchronous functions); correspondence harness "
+      "harness/pysrc.py (Python source text -> Gallina for the byte-level functions, the synchronous methods and the coroutines as segments between suspension points); correspondence harness "
       "(CPython 3.12.1, real bellows classes); zigpy/asyncio/NCP firmware modelled not verified; see DESIGN.md section 7")
 
 CHECKS = {
@@ -14,7 +14,7 @@ CHECKS = {
         text=("Coq theorems over the status table regenerated from the live module on every run: OK iff success code for "
               "all 2x256 legacy codes (vm_compute sweep lifted to a forall), unified statuses unchanged, pinned retry/"
               "start-up codes; the control flow of from_ember_status is tied by an exhaustive correspondence over both "
-              "8-bit families plus all defined and sampled undefined unified values."),
+              "8-bit families plus all defined and sampled undefined unified values. from_ember_status and the SL_STATUS_MAP definition are additionally emitted from their Python source and proved equal to the model's normalise for every class and integer; the per-version wrappers' return statements and every status comparison site are emitted as tables and proved to go through the conversion (c18_source_conversion, c18_source_wrappers_convert, c18_source_compare_sites)."),
         design_ref="DESIGN.md section 6 C18",
         technique="Coq proof over translator-generated table + exhaustive model/implementation correspondence",
     ),
@@ -36,7 +36,7 @@ CHECKS["C15"] = dict(
     text=("Coq model of Multicast._initialize/subscribe/unsubscribe with the NCP table; theorems for every table size, every admissible "
           "initial table and every call sequence: index partition invariant under every answer incl. timeouts, host view = NCP table "
           "when writes are answered, idempotent subscribe, full table, failed call keeps the free count. Tied to the real Multicast "
-          "class by correspondence (exhaustive short sequences x sizes x answers, random long ones; Python's set.pop choice fed to the model)."),
+          "class by correspondence (exhaustive short sequences x sizes x answers, random long ones; Python's set.pop choice fed to the model). __init__, _initialize and startup are additionally emitted from their Python source and proved to be the model's Init / start-up for every table and answer sequence (c15_source_initialize, c15_source_startup, c15_source_scan_entry)."),
     design_ref="DESIGN.md section 6 C15",
     technique="Coq proof (invariants by induction over call sequences) + model/implementation correspondence",
 )
@@ -224,7 +224,7 @@ CHECKS["C14"] = dict(
           "well-known trust-centre key from v5) the read-back equals what was written on PAN ids, channel/mask, update id, network key + "
           "sequence, trust-centre key + hashed form, link keys, frame counter (v5+), children (v9+). The non-well-known TCLK case is proved "
           "refuted (c14_tclk_refuted) and listed as a known finding. Tied to the real application and per-version accessors by "
-          "correspondence against a simulated NCP for every version; the NCP store is an assumption about firmware."),
+          "correspondence against a simulated NCP for every version; the NCP store is an assumption about firmware. zha_security, the key conversions, the per-version write accessors and the order of steps of write_network_info are additionally emitted from their Python source and proved equal to the model (c14_source_security_state, c14_source_write_order, c14_source_staged_after_restart_before_form, c14_source_key_*)."),
     design_ref="DESIGN.md section 6 C14",
     technique="Coq proof about the model (plan / store / read-back) + correspondence with the real code on a simulated NCP (partial)",
     note=TB + "; the NCP (harness/ncpsim.py and the Coq store) is a specification-derived assumption, not EmberZNet",
